@@ -305,11 +305,17 @@ class Interp(object):
         if isinstance(v, (bytes, str, list, tuple, dict, set, frozenset)):
             return len(v) > 0
         if isinstance(v, SStr):
+            if v.known_len is not None:
+                return v.known_len > 0
             return self.path.branch(z3.Length(v.term) > 0)
+        if isinstance(v, SHash):
+            return v.nbytes > 0
         if isinstance(v, SBytes):
             return self.truthy(self.len_of(v) if not isinstance(v.length, int) else v.length)
         if isinstance(v, SList):
             return self.truthy(v.length)
+        if isinstance(v, SObj) and self.models.listobj(v) is not None:
+            return len(self.models.listobj(v)) > 0
         if isinstance(v, SObj):
             lenf = self.class_attr(v.cls, "__len__")
             if lenf is not None:
@@ -959,6 +965,8 @@ class Interp(object):
 
     def iterate(self, v, lazy=False):
         """value -> python list (or iterator) of element values; shape must be concrete."""
+        if isinstance(v, SObj) and self.models.listobj(v) is not None:
+            return list(self.models.listobj(v))
         if isinstance(v, (list, tuple)):
             return list(v)
         if isinstance(v, (range, set, frozenset, bytes, str)):
